@@ -1,0 +1,53 @@
+//go:build verif
+
+package names
+
+// Machine-checked contracts for package names (read by /verif/govc only;
+// never compiled into a normal build).
+
+// nameChar: the characters a glyph name may consist of (AGL specification,
+// section 2: upper and lower case letters, digits, period and underscore).
+func nameChar(b byte) bool {
+	return b >= 'A' && b <= 'Z' || b >= 'a' && b <= 'z' || b >= '0' && b <= '9' || b == '.' || b == '_'
+}
+
+// C16: IsValid is exactly the AGLFN name syntax: ".notdef", or 1..31 name
+// characters not starting with a digit or a period.
+//@ func IsValid
+//@ safety C16
+//@ ensures [C16.valid] result == (s == ".notdef" || (1 <= len(s) && len(s) <= 31 && !(s[0] >= 48 && s[0] <= 57) && s[0] != 46 && (forall k :: 0 <= k && k < len(s) ==> nameChar(s[k]))))
+//@ loop 1 invariant [C16.valid] 1 <= len(s) && len(s) <= 31 && !(s[0] >= 48 && s[0] <= 57) && s[0] != 46 && s != ".notdef" && (forall k :: 0 <= k && k < rangeidx ==> nameChar(s[k]))
+
+// specHexUp: value of an upper-case hexadecimal digit.
+func specHexUp(b byte) rune {
+	if b >= '0' && b <= '9' {
+		return rune(b - '0')
+	}
+	return rune(b-'A') + 10
+}
+
+// specHex4: the number written by the four hexadecimal digits s[o:o+4].
+func specHex4(s string, o int) rune {
+	return ((specHexUp(s[o])*16+specHexUp(s[o+1]))*16+specHexUp(s[o+2]))*16 + specHexUp(s[o+3])
+}
+
+// C16, "uni" components (AGL specification, section 2, step 3): "uni" followed
+// by groups of four upper-case hexadecimal digits, each group a code point
+// outside D800..DFFF; the component maps to exactly these code points.  The
+// loop (loop 2 of ToUnicode) runs over part[3:], index i, current group value
+// val, finished groups in candidates.
+//@ define hexUp(b) = (b >= 48 && b <= 57) || (b >= 65 && b <= 70)
+//@ define surrogate(v) = v >= 55296 && v <= 57343
+//@ func ToUnicode
+//@ loop 2 invariant [C16.uni.digits] good && 3 <= len(part) && rangeidx <= len(part) - 3 && (forall k :: 0 <= k && k < rangeidx ==> hexUp(part[k+3]))
+//@ loop 2 invariant [C16.uni.groups] len(candidates)*4 <= rangeidx && rangeidx <= len(candidates)*4 + 3 && (forall j :: 0 <= j && j < len(candidates) ==> candidates[j] == specHex4(part, 3 + 4*j) && !surrogate(candidates[j]))
+//@ loop 2 invariant [C16.uni.partial] (rangeidx == len(candidates)*4 ==> val == 0) && (rangeidx == len(candidates)*4 + 1 ==> val == specHexUp(part[rangeidx+2])) && (rangeidx == len(candidates)*4 + 2 ==> val == specHexUp(part[rangeidx+1])*16 + specHexUp(part[rangeidx+2])) && (rangeidx == len(candidates)*4 + 3 ==> val == (specHexUp(part[rangeidx])*16 + specHexUp(part[rangeidx+1]))*16 + specHexUp(part[rangeidx+2]))
+//@ loop 2 exit-when [C16.uni.accept] good ==> len(candidates)*4 + 3 >= len(part) - 3 && (forall k :: 0 <= k && k < len(part) - 3 ==> hexUp(part[k+3])) && (forall j :: 0 <= j && j < len(candidates) ==> candidates[j] == specHex4(part, 3 + 4*j))
+//@ loop 2 exit-when [C16.uni.reject] !good ==> !hexUp(part[prev(rangeidx)+3]) || (prev(rangeidx) == prev(len(candidates))*4 + 3 && surrogate(specHex4(part, prev(rangeidx))))
+// "u" components (step 3, second form): "u" followed by four to six upper-case
+// hexadecimal digits.  Loop 3 of ToUnicode runs over part[1:]; val is the
+// number written by the digits read so far.
+//@ loop 3 invariant [C16.u.digits] good && 5 <= len(part) && len(part) <= 7 && rangeidx <= len(part) - 1 && (forall k :: 0 <= k && k < rangeidx ==> hexUp(part[k+1]))
+//@ loop 3 invariant [C16.u.value] (rangeidx == 0 ==> val == 0) && (rangeidx == 1 ==> val == specHexUp(part[1])) && (rangeidx == 2 ==> val == specHexUp(part[1])*16 + specHexUp(part[2])) && (rangeidx == 3 ==> val == (specHexUp(part[1])*16 + specHexUp(part[2]))*16 + specHexUp(part[3])) && (rangeidx == 4 ==> val == specHex4(part, 1)) && (rangeidx == 5 ==> val == specHex4(part, 1)*16 + specHexUp(part[5])) && (rangeidx == 6 ==> val == (specHex4(part, 1)*16 + specHexUp(part[5]))*16 + specHexUp(part[6]))
+//@ loop 3 exit-when [C16.u.accept] good ==> (forall k :: 0 <= k && k < len(part) - 1 ==> hexUp(part[k+1])) && (len(part) == 5 ==> val == specHex4(part, 1)) && (len(part) == 6 ==> val == specHex4(part, 1)*16 + specHexUp(part[5])) && (len(part) == 7 ==> val == (specHex4(part, 1)*16 + specHexUp(part[5]))*16 + specHexUp(part[6]))
+//@ loop 3 exit-when [C16.u.reject] !good ==> !hexUp(part[prev(rangeidx)+1])
